@@ -247,8 +247,26 @@ const (
 	vkSliceRedSafe  // pre-redactable followed by safe siblings
 	vkStructRedSafe // struct: RedactableBytes field followed by a Safe() field
 	vkNestedSF      // SafeFormatter that calls Printf / Print on its SafePrinter
+	vkReentrantSF   // SafeFormatter that makes top-level print calls of its own while it is being printed
+	vkSafeNil       // Safe(nil)
+	vkUnsafeNil     // Unsafe(nil)
+	vkSafeIntWrap   // Safe(int)
+	vkUnsafeStrWrap // Unsafe(string)
 	vkNumRedact
 )
+
+// reentSF's SafeFormat builds redactable strings with top-level calls
+// (the way helper functions do) in the middle of its own output.
+type reentSF struct{ s string }
+
+func (x reentSF) SafeFormat(p redact.SafePrinter, verb rune) {
+	p.Printf("%s: ", x.s)
+	d := redact.Sprintf("n=%d", redact.Safe(7))
+	p.Print(d)
+	e := redact.Sprint(x.s)
+	p.SafeString(" ")
+	p.Print(e)
+}
 
 // public (declared-safe) leaves of the mixed kinds; C05 makes them symbolic.
 var (
@@ -411,6 +429,16 @@ func mkValue(kind int, s string, i int) interface{} {
 		return nestedSF{s}
 	case vkStructRedSafe:
 		return ifaceStruct{redact.RedactableBytes("b‹e›"), redact.Safe(pubS)}
+	case vkReentrantSF:
+		return reentSF{s}
+	case vkSafeNil:
+		return redact.Safe(nil)
+	case vkUnsafeNil:
+		return redact.Unsafe(nil)
+	case vkSafeIntWrap:
+		return redact.Safe(i)
+	case vkUnsafeStrWrap:
+		return redact.Unsafe(s)
 	}
 	panic("mkValue: bad kind")
 }
